@@ -117,8 +117,9 @@ def run(ctx):
         raise core.MachineryFailure("as-built lazy concatenate (keys of the first operand only) no longer refuted by TLC")
     ctx.notes.append("AsBuilt=TRUE instance (np.concatenate takes cache/overlay keys from the first operand): TLC refutes Equivalent")
     if not quick:
+        # three formats per program for the shorter programs, two for the longest ones (the bulk of the states): the thorough tier stays near half an hour
         for v in vectors:
-            v["nformats"] = 3
+            v["nformats"] = 3 if len(v["prog"]) <= 4 else 2
     ctx.sample(vectors[5])
     ctx.sample(vectors[len(vectors) // 2])
     results = core.pmap(check_vector, vectors, chunk=25)
